@@ -68,7 +68,7 @@ func seqPools() map[string]map[string][]*source {
 func fitsKind(s *source, k kindT) bool {
 	var isInt bool
 	var iv *big.Int
-	if s.format == "json" {
+	if s.format == "json" || s.rat != nil {
 		if s.rat == nil {
 			return false
 		}
